@@ -127,7 +127,7 @@ prop('C15',
               min_paths=1000, split={'quick': 8, 'thorough': 9}, params={'quick': {'steps': 3}, 'thorough': {'steps': 4}},
               conform={'quick': 60, 'thorough': 500}, nvals=40),
      ],
-     bounds={'peers': 3, 'steps': 'find_node: quick 4, thorough 5; get_record/get_providers: quick 3, thorough 5',
+     bounds={'peers': 3, 'steps': 'find_node: quick 4, thorough 5; get_record/get_providers: quick 3, thorough 4',
              'replication': '1..2 (symbolic)', 'parallelism': '1..2 (symbolic)',
              'distances': 'pairwise distinct, ordered (symmetry reduction), 8-bit'},
      outside=['QueryEngine wiring', 'network I/O', 'more than 3 peers, lookups longer than the step bound'],
@@ -161,7 +161,7 @@ prop('C17',
               params={'quick': {'steps': 1, 'arbitrary_start': 1}, 'thorough': {'steps': 2, 'arbitrary_start': 1, 'all_address_counts': 1}},
               conform={'quick': 100, 'thorough': 500}, nvals=40),
      ],
-     bounds={'ops': 'quick 3, thorough 4', 'keys': 2, 'max_records': '0..2', 'value length': '<= 64 symbolic',
+     bounds={'ops': 'records: 3 (both tiers; thorough adds conformance vectors); providers: quick 2, thorough 3', 'keys': 2, 'max_records': '0..2', 'value length': '<= 64 symbolic',
              'provider keys bound': '0..2', 'providers per key bound': '1..2 (histories), 1 or 3 (one-step)', 'addresses per provider bound': '0..2', 'providers': '3 remote + the local node',
              'one-step pre-state': 'one key with any distance-sorted subset of the 4 providers within the bound, uniformly fresh or expired'},
      outside=['provider refresh timer stream'],
@@ -242,7 +242,7 @@ prop('C14',
      ],
      assumptions=['A-SHA: no stored key is at XOR distance < 2 from the local key (bucket 0 is empty); with crafted keys ClosestBucketsIter visits bucket 0 twice',
                   'PeerId::random() (placeholder of a vacant slot) returns an id different from all harness ids'],
-     bounds={'peer pool': '4 ids over buckets 255/255/254/250 (table ops); 22 ids of bucket 255 (full bucket)', 'steps': 'quick 2, thorough 3',
+     bounds={'peer pool': '4 ids over buckets 255/255/254/250 (table ops); 22 ids of bucket 255 (full bucket)', 'steps': 'table ops: 2 (both tiers; three steps took 2.7 h and were dropped from the registered tier); full bucket: quick 2, thorough 3',
              'closest targets': 'a stored key, a foreign key, the local key; k in 1..2 and 8/30'},
      outside=['all 2^256 targets / all bucket indices (only the concrete targets above are walked)', 'KademliaPeer::push_addresses address bounds'],
      )
